@@ -295,7 +295,8 @@ def run_qcase(case):
     for c in case['cmds']:
         k = c[0]
         if k == 'iter':
-            _, s, p, vals, tr = c
+            _, s, p, vals, tr = c[:5]
+            push = c[5] if len(c) > 5 else True
             d = src(s)
             if d is MISSING:
                 out.append(SKIP)
@@ -303,19 +304,20 @@ def run_qcase(case):
             e = build_path(cx, p)
             t = make_trace(cx) if tr else None
             it = find(e, d, trace=t) if vals else find_matches(e, d, trace=t)
-            iters.append((it, vals))
+            iters.append((it, vals, push))
             out.append(ON("iter"))
         elif k == 'next':
             if c[1] >= len(iters):
                 out.append(SKIP)
                 continue
-            it, vals = iters[c[1]]
+            it, vals, push = iters[c[1]]
 
             def th():
                 r = next(it)
                 if vals:
                     return ON("value", [lval(cx, r)])
-                matches.append(r)
+                if push:
+                    matches.append(r)
                 return ON("result", [mref(cx, r)])
             out.append(guarded("next", th))
         elif k == 'drain':
@@ -323,7 +325,7 @@ def run_qcase(case):
             if ki >= len(iters):
                 out.append(SKIP)
                 continue
-            it, vals = iters[ki]
+            it, vals, push = iters[ki]
             obs = []
 
             def one():
@@ -334,7 +336,8 @@ def run_qcase(case):
                     more[0] = True
                     if vals:
                         return ON("value", [lval(cx, r)])
-                    matches.append(r)
+                    if push:
+                        matches.append(r)
                     return ON("result", [mref(cx, r)])
                 obs.append(guarded("next", th))
                 return more[0]
